@@ -31,6 +31,21 @@ fn oracle(expect_gone: bool, reput: bool) -> Oracle {
                 }
             }
         }
+        // (c') the moment the acknowledgement completes as accepted the weight is no longer counted: the deleter awaits
+        // and reads the total at once (no other writer in these programs)
+        for d in &deletes {
+            if let (Some(aw), Some(tw)) = (run.call(d.thread, d.idx + 1), run.call(d.thread, d.idx + 2)) {
+                if let (Op::Await { .. }, Op::TotalWeight, Res::Weight(w)) = (&aw.op, &tw.op, &tw.res) {
+                    if run.status_of(d.thread, d.idx) == Some(CommandStatus::Accepted) {
+                        let k = d.op.key().unwrap();
+                        let released = run.obs_init.entry(k).and_then(|e| run.obs_init.weight_of_id(e.2)).unwrap_or(0);
+                        if *w != run.obs_init.weight_used - released {
+                            out.push(Finding::new("deleted-key-still-charged", "delete:weight-still-counted-when-ack-completes", format!("{} was awaited (Accepted) but total_weight_used() read right afterwards is {} (before: {}, the key weighs {})", d.short(), w, run.obs_init.weight_used, released)));
+                        }
+                    }
+                }
+            }
+        }
         if !run.program.has_shutdown() {
             // (c) once acknowledged as accepted: gone, weight released, and the key can be put again
             for d in &deletes {
@@ -113,6 +128,8 @@ fn programs() -> Vec<(Program, bool, bool)> {
     let mut p = mk("soft-deleted: delete(k);upsert(k,ttl);get_ref(k)", vec![put_ttl(1, 2, 5000)], vec![vec![del(1), ups_ttl(1, 9000), Op::Read { k: 1, variant: ReadVariant::GetRef }]], vec![]);
     p.tolerate_value_missing = true;
     v.push((p, false, false));
+    v.push((mk("delete(k);await;total_weight", vec![put(1, 2), put(2, 3)], vec![vec![del(1), Op::Await { call: 0 }, Op::TotalWeight]], vec![]), true, false));
+    v.push((mk("delete(k);await;total_weight /ttl", vec![put_ttl(1, 2, 5000), put(2, 3)], vec![vec![del(1), Op::Await { call: 0 }, Op::TotalWeight]], vec![]), true, false));
     v.push((mk("delete(k);await;put(k);get(k)||get(k)", vec![put(1, 2)], vec![vec![del(1), Op::Await { call: 0 }, put(1, 3), Op::Await { call: 2 }, get(1)], vec![get(1)]], vec![]), false, false));
     v
 }
